@@ -48,8 +48,9 @@ import (
 // ---------------------------------------------------------------- case
 
 type Case struct {
-	Hist    *lsx.Hist `json:"hist"`
-	Targets []int     `json:"targets"`
+	Hist    *lsx.Hist `json:"hist,omitempty"`
+	Targets []int     `json:"targets,omitempty"`
+	Big     int       `json:"big,omitempty"` // > 0: the big-operation history over this many chunks (generator descriptor, see bigHist)
 }
 
 func unhex(s string) []byte { b, _ := hex.DecodeString(s); return b }
@@ -344,6 +345,13 @@ func shape(d localstore.VerifDump) string {
 	return sb.String()
 }
 
+func clip(v interface{}) interface{} {
+	if s, ok := v.(string); ok && len(s) > 400 {
+		return s[:400] + "..."
+	}
+	return v
+}
+
 func opClass(op lsx.Op) string {
 	switch op.K {
 	case "put", "set", "get", "getmulti":
@@ -356,7 +364,7 @@ func oracle(run *hx.Run, c *Case, i, k int, op lsx.Op, pre localstore.VerifDump,
 	class := opClass(op)
 	viol := func(sig, detail string, impl, want interface{}) {
 		run.Violate(hx.Violation{Sig: sig, Detail: fmt.Sprintf("op %d (%s) crash after %d write group(s): %s", i, class, k, detail),
-			Case: &Case{Hist: c.Hist, Targets: []int{i}}, Impl: impl, Want: want})
+			Case: &Case{Hist: c.Hist, Targets: []int{i}, Big: c.Big}, Impl: clip(impl), Want: want})
 	}
 	allowed := []localstore.VerifDump{pre}
 	for _, s := range sub {
@@ -513,6 +521,79 @@ func min(a, b int) int {
 		return a
 	}
 	return b
+}
+
+// ---------------------------------------------------------------- big operations
+
+// bigHist is the history Aurora.C14.Corr.big_hist n describes: n chunks with
+// addresses 01 hi lo 09: pinned upload of all in ONE call, one Set(ModeSetSync)
+// of all, the first two pinned once more, one Set(ModeSetRemove) of all — single
+// calls whose write batch holds thousands of index operations (3n for the
+// removal). One batch must still be ONE driver write.
+func bigHist(n int) *lsx.Hist {
+	h := &lsx.Hist{Kind: fmt.Sprintf("big-%d", n), Base: "00000000", Cap: 1000000, Twin: -1}
+	all := make([]int, n)
+	put := lsx.Op{K: "put", T: 10, Mode: 2, Root: -1}
+	for i := 0; i < n; i++ {
+		h.Univ = append(h.Univ, fmt.Sprintf("01%02x%02x09", i/256, i%256))
+		all[i] = i
+		put.Chs = append(put.Chs, lsx.Ch{A: i, D: fmt.Sprintf("%02x", i%256)})
+	}
+	h.Ops = []lsx.Op{put,
+		{K: "set", T: 20, Mode: 0, Root: -1, Addrs: all},
+		{K: "set", T: 30, Mode: 2, Root: -1, Addrs: []int{0, 1}},
+		{K: "set", T: 40, Mode: 1, Root: -1, Addrs: all}}
+	return h
+}
+
+func summary(d localstore.VerifDump) []uint64 {
+	var pins uint64
+	for _, e := range d.Pin {
+		pins += e.PinCounter
+	}
+	return []uint64{uint64(len(d.Data)), uint64(len(d.Access)), uint64(len(d.GC)), uint64(len(d.Pin)), d.GCSize, pins, lsx.GCSum(d)}
+}
+
+// processBig: every operation of the big history is a target; every driver
+// write of it is a crash point. The Coq case carries the descriptor, the
+// number of driver writes per operation and a 7-number summary per crash
+// point; the oracle works on the full dumps.
+func processBig(run *hx.Run, n int) {
+	c := &Case{Big: n}
+	h := bigHist(n)
+	oc := c // violations carry the descriptor, not n addresses
+	var full []opRun
+	if p, msg := hx.Guard(func() { full = fullRun(h) }); p {
+		run.Violate(hx.Violation{Sig: "harness:panic-in-full-run", Detail: msg, Case: c})
+		return
+	}
+	var sb strings.Builder
+	fmt.Fprintf(&sb, "(CBig %d ", n)
+	for i, op := range h.Ops {
+		r := full[i]
+		run.Hist("big.target." + opClass(op))
+		run.Hist(fmt.Sprintf("big.driver-writes=%d", min(r.n, 6)))
+		var nums []uint64
+		for k := 0; k <= r.n; k++ {
+			var d localstore.VerifDump
+			var applied int
+			var crashed bool
+			if p, msg := hx.Guard(func() { d, applied, crashed = crashRun(h, i, k) }); p {
+				run.Violate(hx.Violation{Sig: "harness:panic-in-crash-run", Detail: fmt.Sprintf("big op %d k %d: %s", i, k, msg), Case: c})
+				return
+			}
+			if applied != k || crashed != (k < r.n) {
+				run.Violate(hx.Violation{Sig: "harness:write-count-not-reproducible", Detail: fmt.Sprintf("big op %d: %d driver writes in the full run; replay with limit %d applied %d", i, r.n, k, applied), Case: c})
+				return
+			}
+			run.Hist("crash-points")
+			oracle(run, oc, i, k, op, r.pre, r.sub, d)
+			nums = append(nums, summary(d)...)
+		}
+		fmt.Fprintf(&sb, "(GO %d %s ", r.n, nl(nums))
+	}
+	sb.WriteString("GE" + strings.Repeat(")", len(h.Ops)) + ")%N")
+	run.AddCase(sb.String(), c, fmt.Sprintf("big|%d", n), true)
 }
 
 // ---------------------------------------------------------------- corpus
@@ -809,12 +890,21 @@ func main() {
 		if err := run.ReadReplay(&c); err != nil {
 			panic(err)
 		}
-		process(run, &c)
+		if c.Big > 0 {
+			processBig(run, c.Big)
+		} else {
+			process(run, &c)
+		}
 		run.Finish()
 		return
 	}
 	for _, c := range corpus() {
 		process(run, c)
+	}
+	// operations whose single batch holds more than 4096 index operations (3n for the removal)
+	processBig(run, 1400)
+	for i := 0; i < run.N(0, 4); i++ {
+		processBig(run, 1366+run.R.Fork(uint64(900000+i)).Intn(1100))
 	}
 	for i := 0; i < run.N(150, 3000); i++ {
 		r := run.R.Fork(uint64(i))
